@@ -25,6 +25,23 @@ CHECKS = {
    technique="symbolic execution (symbolic project/interval/prune/getCoords) + z3: exactly-once coefficients and no element outside the extent",
    text="F-affine programs: coefficient equality is 'every contribution exactly once'; a second disjunct asks for any element "
         "created outside the declared extent. Three genuine defects are listed in known_findings.json.", note=E1_NOTE),
+ "C06": dict(engine="E2", cat="translation_validation", ref="§3 E2, §6 C06, §8",
+   technique="path-SAT definite-assignment analysis of the emitted text (z3 Booleans per loop/branch), exec-based path replay",
+   text="Every emitted program (plain, spacetime, metrics mode) is ast.parse'd and every read of a non-user name yields the query "
+        "pc /\\ not def; sat = a CFG path with the name unbound, replayed by exec()ing the text along that path with stub objects.",
+   note="Trusted base: lib/tv/pathsat.py, Python's ast/exec, z3. User-supplied names are derived from the specification alone. "
+        "One unrolling per loop is exact for definite assignment. Specification dimension enumerated."),
+ "C09": dict(engine="E3", cat="translation_validation", ref="§3 E3, §6 C09, §8",
+   technique="lock-step walk of HiFiber tree and ast.parse(text); z3 term disequality (real arithmetic + uninterpreted functions) per expression position",
+   text="For every expression position of every program the tree-side term and the text-side term must be equal for all identifier "
+        "values (unsat disequality); CoordAccess.build_expr is additionally compared with the sympy expression itself.",
+   note="Trusted base: lib/tv/termeq.py, Python's ast, z3 (QF_UFNRA). Non-arithmetic operators are uninterpreted; chains of & and | are flattened."),
+ "C10": dict(engine="E4", cat="other", ref="§3 E4, §6 C10",
+   technique="symbolic execution of the real FlowGraph.__hoist source over all topological orders (z3 bit-vectors), replay on the real object",
+   text="The node order is a vector of symbolic positions constrained to be any topological order of the real graph; the AST of the real "
+        "__hoist is interpreted symbolically and z3 shows no edge is reversed, no node lost, loops nest and no descendant rises above its loop.",
+   note="Trusted base: lib/tv/symhoist.py, networkx (descendants evaluated concretely), z3. The graph's edge set is taken as given. "
+        "Graphs above the node bound are only checked on the concrete order the real pipeline produces."),
 }
 NA = [
  {"property_id": "C17", "reason": "parsing is done by lark's Earley engine over regex terminals: CrossHair realises symbolic strings at re/hash (probe: 90 s, 'Not confirmed', TypeError inside lark), and an SMT regex model of the grammars would check my reading of lark, not the code; no solver-based encoding of the real parser is within reach (DESIGN §7)"},
@@ -58,6 +75,14 @@ def main():
         "engines": [
             {"name": "E1", "path": "lib/tv/e1.py", "serves_properties": [p for p in sorted(CHECKS) if CHECKS[p]["engine"] == "E1"],
              "kind_free_text": "symbolic execution of emitted HiFiber programs over a symbolic fibertree model; z3 decides output == dense Einsum for all inputs in the box"},
+            {"name": "E2", "path": "lib/tv/pathsat.py", "serves_properties": [p for p in sorted(CHECKS) if CHECKS[p]["engine"] == "E2"],
+             "kind_free_text": "path-SAT definite assignment over emitted text"},
+            {"name": "E3", "path": "lib/tv/termeq.py", "serves_properties": [p for p in sorted(CHECKS) if CHECKS[p]["engine"] == "E3"],
+             "kind_free_text": "z3 term equivalence of HiFiber tree and parsed text"},
+            {"name": "E4", "path": "lib/tv/symhoist.py", "serves_properties": [p for p in sorted(CHECKS) if CHECKS[p]["engine"] == "E4"],
+             "kind_free_text": "symbolic execution of FlowGraph.__hoist over all topological orders"},
+            {"name": "E5", "path": "lib/tv/ch", "serves_properties": [p for p in sorted(CHECKS) if CHECKS[p]["engine"] == "E5"],
+             "kind_free_text": "CrossHair (z3-backed per-path symbolic execution) harnesses over real compiler functions"},
         ],
         "checks": checks,
         "not_applicable": sorted(na, key=lambda n: n["property_id"]),
